@@ -698,7 +698,7 @@ def sample_layer_filtered(
     from .pyramid import Pyramid
 
     p = Pyramid.new_toast_filtered(depth, tile_filter, coordsys=coordsys)
-    proc = ToastSampler(pio, sampler, False, format=format, coordsys=coordsys)
+    proc = ToastSampler(pio, sampler, False, coordsys=coordsys)
     p.visit_leaves(proc.visit_callback, parallel=parallel, cli_progress=cli_progress)
 
 
@@ -744,7 +744,18 @@ class ToastSampler(object):
         self._clobber = clobber
         self._format = format
         self._coordsys = coordsys
-        self._invert_into_tiles = pio.get_default_vertical_parity_sign() == 1
+
+        # Whether rows must be stored bottom-up depends on the format that the
+        # tiles are actually written in: `format` when clobbering, while updates
+        # always go through `pio.update_image()` and hence the default format.
+        from .image import get_format_vertical_parity_sign
+
+        if clobber and format is not None:
+            out_format = format
+        else:
+            out_format = pio.get_default_format()
+
+        self._invert_into_tiles = get_format_vertical_parity_sign(out_format) == 1
 
     def _level0_coords(self):
         # The level-0 tile has no `Tile`: it is the 2x2 mosaic of the level-1
